@@ -26,7 +26,7 @@ Consume == l' = l + 1
 TInit == Init /\ l = 1 /\ TLCSet(1, 1)
 SetOf(s) == {s[i] : i \in DOMAIN s}
 TReset == /\ IsEv("reset") /\ Consume
-          /\ LET x == Tr[l] IN /\ cred' = [password |-> x.password, keyEts |-> SetOf(x.keyEts), assumeInit |-> x.assume] /\ assume' = x.assume
+          /\ LET x == Tr[l] IN /\ cred' = [password |-> x.password, keyEts |-> SetOf(x.keyEts), assumeInit |-> x.assume, tkt |-> x.tkt] /\ assume' = x.assume
           /\ pc' = "idle" /\ at' = Home /\ referral' = 0 /\ negotiated' = 0 /\ req' = NoPA /\ sends' = 0 /\ outcome' = "none" /\ code' = 0
           /\ last' = NoAnswer /\ logins' = 0
 TLogin == IsEv("login") /\ pc = "idle" /\ Consume /\ Begin
@@ -44,5 +44,5 @@ TNext == TReset \/ TLogin \/ TReq \/ TResult
 TSpec == TInit /\ [][TNext]_tvars
 Mark == IF l > TLCGet(1) THEN TLCSet(1, l) ELSE TRUE
 Accepted == IF TLCGet(1) = Len(Tr) + 1 THEN TRUE ELSE PrintT(<<"REJECTED", TLCGet(1)>>)
-TCreds == {[password |-> TRUE, keyEts |-> {}, assumeInit |-> FALSE]}
+TCreds == {[password |-> TRUE, keyEts |-> {}, assumeInit |-> FALSE, tkt |-> <<>>]}
 =============================================================================
